@@ -152,7 +152,9 @@ def dt_to_http(dt: datetime.datetime) -> str:
     """
 
     # Tue, 15 Nov 1994 12:45:26 GMT
-    return dt.strftime('%a, %d %b %Y %H:%M:%S GMT')
+    # NOTE: the year is formatted separately, since not every C library
+    #   zero-pads %Y to the four digits HTTP requires (years below 1000).
+    return dt.strftime('%a, %d %b {:04d} %H:%M:%S GMT').format(dt.year)
 
 
 def http_date_to_dt(http_date: str, obs_date: bool = False) -> datetime.datetime:
